@@ -509,6 +509,9 @@ func (s *rqSim) run(steps int) {
 	if s.tid%4 == 2 {
 		s.batchExpiry()
 	}
+	if s.tid%4 == 1 {
+		s.restartKey()
+	}
 	s.stress()
 }
 
@@ -609,6 +612,53 @@ func (s *rqSim) restartCtx() {
 	s.reads.applied(10)
 	s.emit(rqEv{Op: "RIApplied", N: 10})
 	s.poll(oidB)
+}
+
+// restartKey: proposals with the NoOP session are made and queued, the replica is stopped and started again in
+// the same process (fresh tables for the same shard and replica id), new proposals with the same session are
+// made, and then the log is replayed: the entries of the first incarnation are reported applied to the tables
+// of the second. Nothing but its random key tells a NoOP proposal from another one, so a replayed entry of the
+// previous incarnation must not complete a request of this one: the keys of two incarnations must differ.
+// The replayed entries are logged as AppliedOld (they justify nothing for the new requests); the verdict is
+// TLC's on the Poll that follows.
+func (s *rqSim) restartKey() {
+	s.emit(rqEv{Op: "Init", NC: s.nc, Shards: pendingProposalShards})
+	sess := &client.Session{ShardID: 1, ClientID: client.NotSessionManagedClientID, SeriesID: client.NoOPSeriesID}
+	round := func() ([]uint64, []int) {
+		s.setup()
+		s.tick = 0
+		s.doTick(2)
+		keys, oids := []uint64{}, []int{}
+		for i := 0; i < 3; i++ {
+			r, err := s.props.propose(sess, []byte{byte(i)}, 50)
+			ev := rqEv{Op: "Propose", Cid: sess.ClientID, Series: sess.SeriesID, To: 50, Err: errName(err)}
+			if err != nil {
+				s.emit(ev)
+				continue
+			}
+			ev.Oid, ev.Rid = s.accept(r)
+			ev.Key = r.key
+			s.emit(ev)
+			keys = append(keys, r.key)
+			oids = append(oids, ev.Oid)
+		}
+		ents := s.propQ.get(false)
+		ks := []uint64{}
+		for _, e := range ents {
+			ks = append(ks, e.Key)
+		}
+		s.emit(rqEv{Op: "GetProposals", Keys: ks})
+		return keys, oids
+	}
+	oldKeys, _ := round()
+	_, newOids := round() // the restart
+	for i, k := range oldKeys {
+		s.props.applied(sess.ClientID, sess.SeriesID, k, sm.Result{Value: uint64(7000 + i)}, false)
+		s.emit(rqEv{Op: "AppliedOld", Key: k, Cid: sess.ClientID, Series: sess.SeriesID, Val: uint64(7000 + i)})
+	}
+	for _, o := range newOids {
+		s.poll(o)
+	}
 }
 
 // commitRace: the commit worker reports a proposal committed (proposalShard.committed: look the request up,
